@@ -70,7 +70,7 @@ Theorem C08_in_file : forall src vals caps r els toks,
 Proof. exact InFile.violation_in_file. Qed.
 Print Assumptions C08_in_file.
 
-(** The code before the repairs (fixed: d49d4e5 source_position; 0904983 parse errors). *)
+(** The code before the repairs (fixed: 9a5420e source_position; 464130b parse errors). *)
 Theorem C08_legacy_refuted :
   exists tf m, fst (m_src m) <= len (tf_source tf) /\
     let v := set_position_marker_legacy tf m in
